@@ -81,7 +81,11 @@ class StrategyTable:
         self.inputs = inputs
         self.name = 'S-' + mode
 
-    def cls(self, v):
+    def cls(self, v, down=None):
+        if down is not None:
+            c = self.classes.get(down + '\x01' + v)
+            if c is not None:
+                return c
         return self.classes.get(v, v)
 
     def output_already_present(self, query):
@@ -95,8 +99,9 @@ class StrategyTable:
         b = rt.D(cur)
         if self.mode == 'ident':
             return a != b
-        if self.mode == 'rel':
-            return self.cls(a) != self.cls(b)
+        if self.mode in ('rel', 'reld'):
+            d = rt.D(down)
+            return self.cls(a, d) != self.cls(b, d)
         if a == b:
             return False
         return self.cls(a) != self.cls(b)
